@@ -502,10 +502,6 @@ def route_text(route):
 
 
 # ----------------------------------------------------------------------------- running a route
-class OpProblem(Exception):
-    pass
-
-
 def do_copy(cf, how, workdir, tag, expect, report):
     from yaw import CorrFunc
     if how == "file":
@@ -535,6 +531,46 @@ def scalar(c, ctype):
     return {"float": float, "int": int, "np.float64": np.float64, "np.int64": np.int64}[ctype](c)
 
 
+class Watch:
+    """compares what the implementation stores with the harness' copy after every operation; reports the first difference"""
+
+    def __init__(self, ctx, route, replay, what="CorrFunc"):
+        self.ctx, self.route, self.replay, self.what = ctx, route, replay, what
+        self.first_bad = None
+
+    def file_problem(self, kind, text, label="file"):
+        if self.first_bad:            # (a container that is already wrong writes a wrong file)
+            return
+        self.ctx.fail("c04-big-file-content", "CorrFunc.to_file of a %s with many patches (route: %s): the datasets read back with h5py are not "
+                      "the pair counts / sums of weights of the container: %s" % (self.what, route_text(self.route), text),
+                      dict(self.replay, failed_op=label))
+        self.first_bad = "to_file"
+
+    def check(self, cf, K, label):
+        if self.first_bad:
+            return
+        ctx, route, replay = self.ctx, self.route, self.replay
+        for role in ROLES:
+            nc, P = getattr(cf, role), K[role]
+            if (nc is None) != (P is None):
+                ctx.fail("c04-big-roles-changed:%s" % label.split(":")[0], "after '%s' (route: %s) the %s %s pair counts %s"
+                         % (label, route_text(route), self.what, "lacks the" if nc is None else "holds", role), dict(replay, failed_op=label))
+                self.first_bad = label
+                return
+            if P is None:
+                continue
+            cnt, wts = compare_container(nc, P)
+            if cnt:
+                ctx.fail("c04-big-stored-counts:%s" % label, "after '%s' (route: %s) the pair counts %s of a %s with %d patches are not "
+                         "the ones the operation defines: %s" % (label, route_text(route), role, self.what, P["N"], cnt), dict(replay, failed_op=label))
+            if wts:
+                ctx.fail("c04-big-stored-weights:%s" % label, "after '%s' (route: %s) %s of a %s with %d patches: %s"
+                         % (label, route_text(route), role, self.what, P["N"], wts), dict(replay, failed_op=label))
+            if cnt or wts:
+                self.first_bad = label
+                return
+
+
 def run_route(ctx, edges, leaves, route, replay, tag):
     """-> (resulting CorrFunc or None, the harness' copy of what it must hold, label of the first operation after which
     the implementation's stored arrays differ or None)"""
@@ -542,38 +578,9 @@ def run_route(ctx, edges, leaves, route, replay, tag):
     cf = build_cf(edges, leaves[0])
     K = kinds_apply(leaves[0], sp_copy)
     selections = []           # the selections made so far (the other operand of a later sum gets the same ones)
-    state = dict(first_bad=None)
-
-    def report(kind, text, label="file"):
-        if kind == "file-content" and not state["first_bad"]:      # (a container that is already wrong writes a wrong file)
-            ctx.fail("c04-big-file-content", "CorrFunc.to_file of a CorrFunc with %d patches (route: %s): the datasets read back with h5py "
-                     "are not the pair counts / sums of weights of the container: %s" % (K["dd"]["N"], route_text(route), text),
-                     dict(replay, failed_op=label))
-            state["first_bad"] = state["first_bad"] or "to_file"
-
-    def check(label):
-        if state["first_bad"]:
-            return
-        for role in ROLES:
-            nc, P = getattr(cf, role), K[role]
-            if (nc is None) != (P is None):
-                ctx.fail("c04-big-roles-changed:%s" % label.split(":")[0], "after '%s' (route: %s) the CorrFunc %s pair counts %s"
-                         % (label, route_text(route), "lacks the" if nc is None else "holds", role), dict(replay, failed_op=label))
-                state["first_bad"] = label
-                return
-            if P is None:
-                continue
-            cnt, wts = compare_container(nc, P)
-            if cnt:
-                ctx.fail("c04-big-stored-counts:%s" % label, "after '%s' (route: %s) the pair counts %s of a CorrFunc with %d patches are not "
-                         "the ones the operation defines: %s" % (label, route_text(route), role, P["N"], cnt), dict(replay, failed_op=label))
-            if wts:
-                ctx.fail("c04-big-stored-weights:%s" % label, "after '%s' (route: %s) %s of a CorrFunc with %d patches: %s"
-                         % (label, route_text(route), role, P["N"], wts), dict(replay, failed_op=label))
-            if cnt or wts:
-                state["first_bad"] = label
-                return
-    check("construction")
+    watch = Watch(ctx, route, replay)
+    report = watch.file_problem
+    watch.check(cf, K, "construction")
     for n, op in enumerate(route):
         label = op_label(op)
         ctx.bump("big-op/%s" % label)
@@ -611,6 +618,7 @@ def run_route(ctx, edges, leaves, route, replay, tag):
                         Ko = kinds_apply(Ko, lambda P: sp_patches(P, list(sel["pos"])))
                 if op.get("via"):
                     other = do_copy(other, op["via"], ctx.workdir, "%s_%d_o" % (tag, n), Ko, report)
+                    watch.check(other, Ko, op["via"])
                 if op["op"] == "add":
                     cf = cf + other
                 elif op["op"] == "iadd":
@@ -624,8 +632,8 @@ def run_route(ctx, edges, leaves, route, replay, tag):
             ctx.fail("c04-big-raises:%s" % label, "the operation '%s' of the route %s on a CorrFunc with %d patches raises %s: %s"
                      % (label, route_text(route), K["dd"]["N"], type(e).__name__, str(e)[:300]), dict(replay, failed_op=label))
             return None, K, label
-        check(label)
-    return cf, K, state["first_bad"]
+        watch.check(cf, K, label)
+    return cf, K, watch.first_bad
 
 
 # ----------------------------------------------------------------------------- Coq terms
@@ -1057,7 +1065,7 @@ def case_measured(ctx, b_big, b_nz, b_norm, meas, routes, tag):
     for which, cf in (("cross", cross), ("ref", ref)):
         if cf is None:
             continue
-        K, wt = {}, {}
+        K = {}
         for role in ROLES:
             nc = getattr(cf, role)
             if nc is None:
@@ -1127,46 +1135,15 @@ def case_measured(ctx, b_big, b_nz, b_norm, meas, routes, tag):
 
 
 def run_measured_route(ctx, cf, K, route, replay, tag):
-    """run_route for a container that was measured (no second leaf: sums add the container to itself through a copy)"""
-    state = dict(first_bad=None)
+    """run_route for a container that was measured (copies and patch selections only)"""
     K = kinds_apply(K, sp_copy)
-
-    def report(kind, text, label="file"):
-        if state["first_bad"]:
-            return
-        ctx.fail("c04-big-file-content", "CorrFunc.to_file of a measured CorrFunc with %d patches (route: %s): the datasets read back with "
-                 "h5py are not the pair counts / sums of weights of the container: %s" % (K["dd"]["N"], route_text(route), text),
-                 dict(replay, failed_op=label))
-        state["first_bad"] = "to_file"
-
-    def check(label):
-        if state["first_bad"]:
-            return
-        for role in ROLES:
-            nc, P = getattr(cf, role), K[role]
-            if (nc is None) != (P is None):
-                ctx.fail("c04-big-roles-changed:%s" % label.split(":")[0], "after '%s' the measured CorrFunc %s pair counts %s"
-                         % (label, "lacks the" if nc is None else "holds", role), dict(replay, failed_op=label))
-                state["first_bad"] = label
-                return
-            if P is None:
-                continue
-            cnt, wts = compare_container(nc, P)
-            if cnt:
-                ctx.fail("c04-big-stored-counts:%s" % label, "after '%s' (route: %s) the pair counts %s of a measured CorrFunc with %d patches "
-                         "are not the ones the operation defines: %s" % (label, route_text(route), role, P["N"], cnt), dict(replay, failed_op=label))
-            if wts:
-                ctx.fail("c04-big-stored-weights:%s" % label, "after '%s' (route: %s) %s of a measured CorrFunc with %d patches: %s"
-                         % (label, route_text(route), role, P["N"], wts), dict(replay, failed_op=label))
-            if cnt or wts:
-                state["first_bad"] = label
-                return
+    watch = Watch(ctx, route, replay, what="measured CorrFunc")
     for n, op in enumerate(route):
         label = op_label(op)
         ctx.bump("big-op/%s" % label)
         try:
             if op["op"] == "copy":
-                cf = do_copy(cf, op["how"], ctx.workdir, "%s_%d" % (tag, n), K, report)
+                cf = do_copy(cf, op["how"], ctx.workdir, "%s_%d" % (tag, n), K, watch.file_problem)
             elif op["op"] == "patches":
                 n_axis = K["dd"]["N"]
                 item = make_item(op["kind"], op["pos"], n_axis)
@@ -1181,8 +1158,8 @@ def run_measured_route(ctx, cf, K, route, replay, tag):
             ctx.fail("c04-big-raises:%s" % label, "the operation '%s' of the route %s on a measured CorrFunc with %d patches raises %s: %s"
                      % (label, route_text(route), K["dd"]["N"], type(e).__name__, str(e)[:300]), dict(replay, failed_op=label))
             return None, K, label
-        check(label)
-    return cf, K, state["first_bad"]
+        watch.check(cf, K, label)
+    return cf, K, watch.first_bad
 
 
 def gen_measured_routes(rng, N, with_ref):
@@ -1246,6 +1223,12 @@ def run(ctx):
         if ctx.quick() and len(rt[0]["pos"]) > 120:          # the quick tier keeps these cases small: few patches, high numbers
             rt[0]["pos"] = rt[0]["pos"][-60:] if rt[0]["kind"] not in ("slice", "range") else rt[0]["pos"]
         case_built(ctx, b_big, gen, rt, "k%d" % n)
+        n += 1
+    # every other operation once on a CorrFunc with more than 256 patches (two leaves that share their sums of weights)
+    gen = gen_gen(rng, N=rng.choice([258, 300, 363, 400]), roles=rng.choice([("dr",), ("rd",), ("dr", "rr")]), auto=rng.random() < 0.5, nleaves=2, B=2)
+    gen["density"] = 0.3
+    for name in ("pickle", "deepcopy", "copy", "dict", "add", "sum", "iadd", "mul", "bins"):
+        case_built(ctx, b_big, gen, gen_route(rng, gen, 1, force=[name]), "o%d" % n)
         n += 1
     # random routes
     for _ in range(ctx.n(8, 90)):
